@@ -873,6 +873,57 @@ def unicode_cases(ctx, n):
         ctx.count("unicode:hand-escaped")
         yield "unicode_text", [36, text.encode("utf-8"), labels]
 
+
+# ------------------------------------------------------------------ generator 6: construction from str labels (oracle only)
+
+UNITS = ["a", "Z", "\u00e9", "\u00fc", "\u20ac", "\u4f8b", "\U0001f600", ".", "\\", "@", " "]
+
+
+def str_label(rng):
+    """(is_str, utf8 octets) of one label: ASCII / 2-, 3-, 4-octet characters, lengths chosen so that the
+    CHARACTER count and the OCTET count fall on different sides of 63"""
+    r = rng.random()
+    if r < 0.15:
+        return [0, nl.gen_label(rng, 63)]
+    u = rng.choice(UNITS)
+    w = len(u.encode("utf-8"))
+    if r < 0.6:
+        n = rng.choice([63 // w, 63 // w + 1, 63 // w - 1, 63, 64, 62, 40, 32, 31, 21, 22, 16, 15]) if w > 1 else rng.choice([62, 63, 64, 65, 1])
+    else:
+        n = rng.randint(1, 30)
+    t = u * max(1, n)
+    if rng.random() < 0.3:
+        t = t[: len(t) // 2] + rng.choice(UNITS) + t[len(t) // 2 + 1:]
+    return [1, t.encode("utf-8")]
+
+
+def str_construct_cases(ctx, n):
+    rng = ctx.rng
+    for _ in range(n):
+        r = rng.random()
+        if r < 0.45:
+            ls = [str_label(rng) for _ in range(rng.choice([1, 1, 2, 3]))]
+        elif r < 0.85:
+            # totals around 255: several ~30-character labels (characters vs octets)
+            u = rng.choice(UNITS[2:7])
+            k = rng.choice([3, 4, 5, 6, 8])
+            ls = [[1, (u * rng.choice([20, 25, 30, 31, 15, 10])).encode("utf-8")] for _ in range(k)]
+            if rng.random() < 0.5:
+                ls.insert(rng.randrange(len(ls) + 1), [0, nl.gen_label(rng, 40)])
+        else:
+            # octet total exactly around 255 with ASCII str labels
+            t = rng.choice([253, 254, 255, 256, 257])
+            ls = [[rng.randrange(2), l] for l in name_total(rng, t, False) if all(c < 128 for c in l)]
+        q = rng.random()
+        if q < 0.55:
+            ls.append([rng.randrange(2), b""])
+        elif q < 0.62:
+            ls.insert(rng.randrange(len(ls) + 1), [rng.randrange(2), b""])
+        ctx.count("construct:str-labels")
+        yield "construct_str", [37, ls]
+        enc_ls = [bytes(l) for _, l in ls]
+        yield "construct", [1, enc_ls]  # the same octets as bytes labels, also against the model
+
 # ------------------------------------------------------------------ cases
 
 
@@ -922,6 +973,9 @@ def cases(ctx):
     # ---- 3. wire
     yield from wire_cases(ctx, ctx.n(70, 1300), ctx.n(260, 5200), ctx.n(4, 10))
 
+    # ---- 6. construction from str labels (implementation only; op 1 on the encoded octets goes to the model)
+    yield from str_construct_cases(ctx, ctx.n(400, 6000))
+
     # ---- 5. unicode / IDNA text (implementation only)
     yield from unicode_cases(ctx, ctx.n(400, 6000))
 
@@ -956,6 +1010,26 @@ def impl(case):
             t = n.to_text()
             tb = t.encode("latin-1")
             return [tb, _labels_or_err(lambda: dns.name.from_text(t, None)), _labels_or_err(lambda: dns.name.from_text(tb, None))]
+        if op == 37:
+            labels = [bytes(l).decode("utf-8") if k else bytes(l) for k, l in case[1]]
+            n = dns.name.Name(labels)  # exceptions -> code through the outer handler
+            stored = list(n.labels)
+            allbytes = int(all(isinstance(x, bytes) for x in stored))
+            ls = [x if isinstance(x, bytes) else str(x).encode("utf-8") for x in stored]
+
+            def wire_rt():
+                w = n.to_wire()
+                back, c = dns.name.from_wire(w, 0)
+                return nl.labels_of(back) + [b"consumed-ok" if c == len(w) else b"consumed-bad"]
+
+            wire = None
+            if n.is_absolute():
+                try:
+                    wire = wire_rt()
+                except Exception as e:  # noqa
+                    wire = nl.exc_code(e)
+            text = _labels_or_err(lambda: dns.name.from_text(n.to_text(), None))
+            return [ls, allbytes, wire, text]
         if op == 35:
             n = nl.N(case[1])
             try:
@@ -1073,6 +1147,19 @@ def _oracle(ctx, kind, case, out):
             fail("valid name could not be converted to text and back: " + out.text)
         elif op == 32 and is_abs(case[1]):
             fail("valid absolute name could not be converted to wire and back: " + out.text)
+        elif op == 37:
+            enc_ls = [bytes(l) for _, l in case[1]]
+            ok = set()
+            if any(len(l) > 63 for l in enc_ls):
+                ok.add(1)
+            if wl(enc_ls) > 255:
+                ok.add(2)
+            if b"" in enc_ls[:-1]:
+                ok.add(3)
+            if not ok:
+                fail("legal label sequence (str labels) rejected: " + out.text)
+            elif out.code not in ok:
+                fail("wrong error class for an illegal label sequence (str labels): " + out.text)
         elif op == 1 and nl.fits(case[1]):
             fail("legal label sequence rejected: " + out.text)
         elif op == 1:
@@ -1102,6 +1189,8 @@ def _oracle(ctx, kind, case, out):
         produced = [out]
     elif op == 34:
         produced = [x for x in out if not isinstance(x, Err)]
+    elif op == 37:
+        produced = [out[0]]
     elif op == 35:
         produced = [x for x in out[1:] if x is not None and not isinstance(x, Err)]
     elif op == 36:
@@ -1136,6 +1225,24 @@ def _oracle(ctx, kind, case, out):
                 fail("from_text(to_text(n)) != n (%s input)" % how)
         if back_s != back_b:
             fail("from_text disagrees between str and bytes input")
+    elif op == 37:
+        enc_ls = [bytes(l) for _, l in case[1]]
+        ls, allbytes, wire, text = out
+        if not nl.fits(enc_ls):
+            fail("illegal label sequence (counted in octets) accepted from str labels")
+        if not allbytes:
+            fail("a stored label is not bytes")
+        if ls != enc_ls:
+            fail("stored labels are not the UTF-8 octets of the given labels")
+        if wire is not None:
+            if isinstance(wire, Err):
+                fail("constructed name does not survive to_wire/from_wire: " + wire.text)
+            elif wire != ls + [b"consumed-ok"]:
+                fail("to_wire/from_wire of the constructed name gives different labels")
+        if isinstance(text, Err):
+            fail("constructed name does not survive to_text/from_text: " + text.text)
+        elif text != ls:
+            fail("to_text/from_text of the constructed name gives different labels")
     elif op == 35:
         ls = case[1]
         text, back, tok = out
